@@ -15,6 +15,7 @@ import (
 	"verif/harness/gen"
 	"verif/harness/ir"
 	"verif/harness/layout"
+	"verif/harness/reflex"
 	"verif/harness/shape"
 )
 
@@ -117,11 +118,15 @@ func c13Check(c c13Case, rec *evid.Recorder) *Fail {
 }
 
 // c13Corrupt: "differ only where documented" on arbitrary (mostly malformed)
-// text.  Whatever tolerant mode accepts without an error must be explainable by
-// its two documented relaxations alone: the tree it returns, printed compactly,
-// must consist of the tokens of the input in the same order, plus statement
-// terminators and closing braces at the very end (and parentheses the printer
-// adds in balanced pairs).  A tolerant parse that reports errors asserts nothing.
+// text.  Whatever tolerant mode accepts without an error although strict mode
+// rejects it must be explainable by its two documented relaxations alone:
+// there must be a repaired text - the input plus statement separators and plus
+// closing braces at the very end, nothing else - that *strict* mode accepts
+// with the same tree.  The repair is read off the tolerant tree's compact
+// printing (where the printing has a `;` or a final `}` that the input lacks,
+// one is inserted at that place of the input); strict mode is the judge, so
+// every quirk strict mode has of its own is shared and never reported here.
+// A tolerant parse that reports errors asserts nothing.
 func c13Corrupt(src string, rec *evid.Recorder) *Fail {
 	for _, smart := range []bool{false, true} {
 		rec.Eval()
@@ -132,68 +137,81 @@ func c13Corrupt(src string, rec *evid.Recorder) *Fail {
 		}
 		_, es, _ := parseX(src, Mode{Smart: smart})
 		if len(es) == 0 {
-			// strict mode accepts the text as well: the first clause (identical tree)
-			// decides; whether strict mode *should* accept it is C12's question
+			// strict mode accepts the text as well: the first clause (identical tree) decides
 			rec.Class("corrupt:strict-accepts-too")
 			continue
-		} else {
-			rec.Class("corrupt:tolerant-accepts,strict-rejects")
-			rec.NonTrivial(fmt.Sprintf("corrupt|%v|%s", smart, src))
 		}
+		rec.Class("corrupt:tolerant-accepts,strict-rejects")
+		rec.NonTrivial(fmt.Sprintf("corrupt|%v|%s", smart, src))
 		code, perr, _ := safeCompile(pt, Cfg{})
 		if perr != nil {
 			return failf("tolerant mode (smart=%v) accepts the text without error but the tree does not compile: %v\nsrc %q", smart, perr, src)
 		}
 		in, out := lexAll(src), lexAll(code)
-		type tk struct {
-			t token.Type
-			l string
+		lt := reflex.NewLineTable([]byte(src))
+		type ins struct {
+			off int
+			s   string
 		}
-		norm := func(ts []token.Token) (r []tk) {
-			for _, t := range ts {
-				switch t.Type {
-				case token.SEMICOLON, token.EOF:
-					continue
-				case token.STRING, token.RAW_STRING:
-					r = append(r, tk{t.Type, ""})
-				default:
-					r = append(r, tk{t.Type, t.Literal})
-				}
-			}
-			return r
-		}
-		a, b := norm(in), norm(out)
-		i, j, addOpen, addClose := 0, 0, 0, 0
-		bad := ""
-		for j < len(b) {
+		var adds []ins
+		i, j := 0, 0
+		for j < len(out) && out[j].Type != token.EOF {
+			atEnd := i >= len(in) || in[i].Type == token.EOF
+			o := out[j]
 			switch {
-			case i < len(a) && a[i] == b[j]:
+			case o.Type == token.SEMICOLON && !atEnd && in[i].Type == token.SEMICOLON:
 				i++
 				j++
-			case b[j].t == token.LPAREN:
-				addOpen++
+			case o.Type == token.SEMICOLON:
+				off := len(src)
+				if !atEnd {
+					off = lt.Offset(in[i].Start.Line, in[i].Start.Column)
+				}
+				adds = append(adds, ins{off, ";"})
 				j++
-			case b[j].t == token.RPAREN:
-				addClose++
+			case !atEnd && in[i].Type == token.SEMICOLON:
+				i++ // a separator of the input that the printing does not repeat here
+			case atEnd && o.Type == token.RBRACE:
+				adds = append(adds, ins{len(src), "}"})
 				j++
-			case i == len(a) && b[j].t == token.RBRACE:
-				j++ // block closed at end of input
+			case (o.Type == token.LPAREN || o.Type == token.RPAREN) && (atEnd || in[i].Type != o.Type):
+				j++ // parenthesis added by the printer
 			default:
-				bad = fmt.Sprintf("output token %d is %q, which the input does not have there", j, b[j].l)
-				j = len(b)
+				i++
+				j++
 			}
 		}
-		if bad == "" && i < len(a) {
-			bad = fmt.Sprintf("input token %d (%q) does not appear in the tree", i, a[i].l)
+		var b strings.Builder
+		last := 0
+		for _, a := range adds {
+			if a.off < last || a.off > len(src) {
+				continue
+			}
+			b.WriteString(src[last:a.off])
+			if a.off == len(src) && last < len(src) && strings.Contains(src[lastLineStart(src):], "//") {
+				b.WriteString("\n") // never append into a trailing comment
+			}
+			b.WriteString(a.s)
+			last = a.off
 		}
-		if bad == "" && addOpen != addClose {
-			bad = fmt.Sprintf("the printed tree has %d opening and %d closing parentheses that the input lacks", addOpen, addClose)
+		b.WriteString(src[last:])
+		repaired := b.String()
+		ps, esr, _ := parseX(repaired, Mode{Smart: smart})
+		if len(esr) > 0 {
+			return failf("tolerant mode (smart=%v) accepts without error a text that strict mode rejects, and adding the statement separators and final closing braces of the tree it returns does not make the text acceptable to strict mode (%v): the acceptance is not explained by the documented relaxations\nsrc      %q\ntree     %q\nrepaired %q\nstrict errors on src %v", smart, esr[0].Message, src, code, repaired, es)
 		}
-		if bad != "" {
-			return failf("tolerant mode (smart=%v) accepts without error a text whose acceptance its documented relaxations (missing statement separator, block open at end of input) do not explain: %s\nsrc  %q\ntree %q\nstrict errors %v", smart, bad, src, code, es)
+		if code2, _, _ := safeCompile(ps, Cfg{}); code2 != code {
+			return failf("tolerant mode (smart=%v): the tree differs from strict mode's tree of the text repaired with separators and final braces only\nsrc      %q\ntolerant %q\nrepaired %q\nstrict   %q", smart, src, code, repaired, code2)
 		}
 	}
 	return nil
+}
+
+func lastLineStart(s string) int {
+	if i := strings.LastIndexByte(s, '\n'); i >= 0 {
+		return i + 1
+	}
+	return 0
 }
 
 func mustShape(p interface{}) *ir.Node {
